@@ -1065,17 +1065,96 @@ package dig
 //@   loop for i < numOut #1: invariant[C09:results-well-formed-so-far] forall j int :: 0 <= j && j < len(rl.Results) ==> okResult(rl.Results[j])
 //@   site call dig.newResult #1: assert[C15:each-return-type-parsed-in-order] $arg0 == outT(ctype, i)
 
-//@ func (pl paramList) DotParam() (r)
+// ---------------------------------------------------------------------------
+// introspection (C18): what DotParam / DotResult report
+
+// every entry is a fresh record with a fresh node
+//@ pure func dotParamsOK(r []*dot.Param) Bool = (fresh(r) || len(r) == 0) && (forall i int :: 0 <= i && i < len(r) ==> r[i] != nil && r[i].Node != nil)
+//@ pure func dotResultsOK(r []*dot.Result) Bool = (fresh(r) || len(r) == 0) && (forall i int :: 0 <= i && i < len(r) ==> r[i] != nil && r[i].Node != nil)
+
+// interface-level contracts (each implementation below proves these clauses for itself)
+//@ func (p param) DotParam() (r)
 //@   trusted
-//@   allocates
-//@   ensures treeInv()
-//@   ensures (fresh(r) || len(r) == 0) && (forall i int :: 0 <= i && i < len(r) ==> r[i] != nil && fresh(r[i]) && r[i].Node != nil && fresh(r[i].Node))
+//@   allocates plain
+//@   ensures dotParamsOK(r)
+//@ func (x result) DotResult() (r)
+//@   trusted
+//@   allocates plain
+//@   ensures dotResultsOK(r)
+
+//@ func (ps paramSingle) DotParam() (r)
+//@   allocates plain
+//@   ensures[C18:a-single-parameter-is-reported-as-declared] len(r) == 1 && dotParamsOK(r) && r[0].Node.Type == ps.Type && r[0].Node.Name == ps.Name && r[0].Node.Group == "" && r[0].Optional == ps.Optional
+//@   ensures old(treeInv()) ==> treeInv()
+
+//@ func (pt paramGroupedSlice) DotParam() (r)
+//@   allocates plain
+//@   ensures[C18:a-group-parameter-is-reported-as-declared] len(r) == 1 && dotParamsOK(r) && r[0].Node.Type == pt.Type && r[0].Node.Group == pt.Group && r[0].Node.Name == "" && !r[0].Optional
+//@   ensures old(treeInv()) ==> treeInv()
+
+//@ func (pof paramObjectField) DotParam() (r)
+//@   requires pof.Param != nil
+//@   allocates plain
+//@   ensures[C18:a-field-reports-its-parameter] dotParamsOK(r) && (old(treeInv()) ==> treeInv())
+//@   site call (dig.param).DotParam #1: assert[C18:a-field-reports-its-own-parameter] $recv == pof.Param
+
+//@ func (po paramObject) DotParam() (r)
+//@   requires (forall j int :: 0 <= j && j < len(po.Fields) ==> po.Fields[j].Param != nil)
+//@   allocates plain
+//@   ensures[C18:an-object-reports-entries-of-its-fields] dotParamsOK(r) && (old(treeInv()) ==> treeInv())
+//@   loop range po.Fields #1: complete[C18:every-field-of-a-parameter-object-is-reported,C15:every-field-of-a-parameter-object-is-reported]
+//@   loop range po.Fields #1: invariant[C18:object-entries-so-far] (cap(types) == 0 || fresh(types)) && (forall i int :: 0 <= i && i < len(types) ==> types[i] != nil && types[i].Node != nil) && (old(treeInv()) ==> treeInv())
+//@   site call (dig.paramObjectField).DotParam #1: assert[C18:fields-reported-in-declaration-order,C15:fields-reported-in-declaration-order] $recv == po.Fields[$i]
+
+//@ func (pl paramList) DotParam() (r)
+//@   requires (forall j int :: 0 <= j && j < len(pl.Params) ==> pl.Params[j] != nil)
+//@   allocates plain
+//@   ensures[C18:a-parameter-list-reports-entries-of-its-parameters] dotParamsOK(r) && (old(treeInv()) ==> treeInv())
+//@   loop range pl.Params #1: complete[C18:every-parameter-is-reported]
+//@   loop range pl.Params #1: invariant[C18:list-entries-so-far] (cap(types) == 0 || fresh(types)) && (forall i int :: 0 <= i && i < len(types) ==> types[i] != nil && types[i].Node != nil) && (old(treeInv()) ==> treeInv())
+//@   site call (dig.param).DotParam #1: assert[C18:parameters-reported-in-declaration-order] $recv == pl.Params[$i]
+
+//@ func (rs resultSingle) DotResult() (r)
+//@   allocates plain
+//@   ensures[C18:a-single-result-is-reported-under-its-type-and-each-as-type] len(r) == len(rs.As) + 1 && dotResultsOK(r) && r[0].Node.Type == rs.Type && r[0].Node.Name == rs.Name && r[0].Node.Group == ""
+//@        && (forall i int :: 0 <= i && i < len(rs.As) ==> r[i + 1].Node.Type == rs.As[i] && r[i + 1].Node.Name == rs.Name && r[i + 1].Node.Group == "")
+//@   ensures old(treeInv()) ==> treeInv()
+//@   loop range rs.As #1: complete[C18:every-as-type-is-reported]
+//@   loop range rs.As #1: invariant[C18:as-entries-so-far] len(dotResults) == $i + 1 && fresh(dotResults) && (forall i int :: 0 <= i && i < len(dotResults) ==> dotResults[i] != nil && dotResults[i].Node != nil && fresh(dotResults[i]) && fresh(dotResults[i].Node) && dotResults[i] <= $alloc && dotResults[i].Node <= $alloc) && dotResults.arr <= $alloc
+//@        && dotResults[0].Node.Type == rs.Type && dotResults[0].Node.Name == rs.Name && dotResults[0].Node.Group == ""
+//@        && (forall i int :: 0 <= i && i < $i ==> dotResults[i + 1].Node.Type == rs.As[i] && dotResults[i + 1].Node.Name == rs.Name && dotResults[i + 1].Node.Group == "")
+
+//@ func (rt resultGrouped) DotResult() (r)
+//@   allocates plain
+//@   ensures[C18:a-grouped-result-is-reported-under-its-type-and-each-as-type] len(r) == len(rt.As) + 1 && dotResultsOK(r) && r[0].Node.Type == rt.Type && r[0].Node.Group == rt.Group && r[0].Node.Name == ""
+//@        && (forall i int :: 0 <= i && i < len(rt.As) ==> r[i + 1].Node.Type == rt.As[i] && r[i + 1].Node.Group == rt.Group && r[i + 1].Node.Name == "")
+//@   ensures old(treeInv()) ==> treeInv()
+//@   loop range rt.As #1: complete[C18:every-group-as-type-is-reported]
+//@   loop range rt.As #1: invariant[C18:group-as-entries-so-far] len(dotResults) == $i + 1 && fresh(dotResults) && (forall i int :: 0 <= i && i < len(dotResults) ==> dotResults[i] != nil && dotResults[i].Node != nil && fresh(dotResults[i]) && fresh(dotResults[i].Node) && dotResults[i] <= $alloc && dotResults[i].Node <= $alloc) && dotResults.arr <= $alloc
+//@        && dotResults[0].Node.Type == rt.Type && dotResults[0].Node.Group == rt.Group && dotResults[0].Node.Name == ""
+//@        && (forall i int :: 0 <= i && i < $i ==> dotResults[i + 1].Node.Type == rt.As[i] && dotResults[i + 1].Node.Group == rt.Group && dotResults[i + 1].Node.Name == "")
+
+//@ func (rof resultObjectField) DotResult() (r)
+//@   requires rof.Result != nil
+//@   allocates plain
+//@   ensures[C18:a-result-field-reports-its-result] dotResultsOK(r) && (old(treeInv()) ==> treeInv())
+//@   site call (dig.result).DotResult #1: assert[C18:a-result-field-reports-its-own-result] $recv == rof.Result
+
+//@ func (ro resultObject) DotResult() (r)
+//@   requires (forall j int :: 0 <= j && j < len(ro.Fields) ==> ro.Fields[j].Result != nil)
+//@   allocates plain
+//@   ensures[C18:a-result-object-reports-entries-of-its-fields] dotResultsOK(r) && (old(treeInv()) ==> treeInv())
+//@   loop range ro.Fields #1: complete[C18:every-field-of-a-result-object-is-reported,C15:every-field-of-a-result-object-is-reported]
+//@   loop range ro.Fields #1: invariant[C18:result-object-entries-so-far] (cap(types) == 0 || fresh(types)) && (forall i int :: 0 <= i && i < len(types) ==> types[i] != nil && types[i].Node != nil) && (old(treeInv()) ==> treeInv())
+//@   site call (dig.resultObjectField).DotResult #1: assert[C18:result-fields-reported-in-declaration-order] $recv == ro.Fields[$i]
 
 //@ func (rl resultList) DotResult() (r)
-//@   trusted
-//@   allocates
-//@   ensures treeInv()
-//@   ensures (fresh(r) || len(r) == 0) && (forall i int :: 0 <= i && i < len(r) ==> r[i] != nil && fresh(r[i]) && r[i].Node != nil && fresh(r[i].Node))
+//@   requires (forall j int :: 0 <= j && j < len(rl.Results) ==> rl.Results[j] != nil)
+//@   allocates plain
+//@   ensures[C18:a-result-list-reports-entries-of-its-results] dotResultsOK(r) && (old(treeInv()) ==> treeInv())
+//@   loop range rl.Results #1: complete[C18:every-result-is-reported]
+//@   loop range rl.Results #1: invariant[C18:result-list-entries-so-far] (cap(types) == 0 || fresh(types)) && (forall i int :: 0 <= i && i < len(types) ==> types[i] != nil && types[i].Node != nil) && (old(treeInv()) ==> treeInv())
+//@   site call (dig.result).DotResult #1: assert[C18:results-reported-in-declaration-order] $recv == rl.Results[$i]
 
 //@ func newConstructorNode(ctor, s, origS, opts) (n, err)
 //@   requires forall i int :: 0 <= i && i < len(opts.ResultAs) ==> opts.ResultAs[i] != nil && kind(typeOf(opts.ResultAs[i])) == kPtr() && kind(elem(typeOf(opts.ResultAs[i]))) == kInterface()
@@ -1128,6 +1207,7 @@ package dig
 //@   requires treeInv()
 //@   modifies map(Scope.providers), Scope.nodes, elems(*constructorNode), Scope.isVerifiedAcyclic, graphHolder.nodes, graphHolder.snap, elems(*graphNode), map(constructorNode.orders), elems(*Scope)
 //@   modifies ProvideInfo.ID, ProvideInfo.Inputs, ProvideInfo.Outputs, elems(string), elems(any)
+//@   requires opts.Info != nil ==> allocated(opts.Info)
 //@   allocates
 //@   let tgt = opts.Exported ? s0.anc[s0.nanc - 1] : s0
 //@   let all = ret(appendSubscopes_1, 0)
@@ -1165,8 +1245,25 @@ package dig
 //@   deferloop range allScopes #1: invariant[C06:rollbacks-keep-earlier-nodes] prefixes
 //@   deferloop range allScopes #1: invariant[C06:rollbacks-keep-the-stores-separate] graphsSeparate()
 //@   deferloop range allScopes #1: invariant[C06:rollbacks-keep-the-list] allScopes == all && (forall k int :: 0 <= k && k < len(all) ==> all[k] != nil && allocated(all[k]))
+//@   ensures[C18:info-inputs-mirror-the-reported-parameters] err == nil && opts.Info != nil ==> reached(DotParam_1) && (forall i int :: 0 <= i && i < len(ret(DotParam_1, 0)) ==> opts.Info.Inputs[i] != nil
+//@        && opts.Info.Inputs[i].t == ret(DotParam_1, 0)[i].Node.Type && opts.Info.Inputs[i].optional == ret(DotParam_1, 0)[i].Optional
+//@        && opts.Info.Inputs[i].name == ret(DotParam_1, 0)[i].Node.Name && opts.Info.Inputs[i].group == ret(DotParam_1, 0)[i].Node.Group)
+//@   ensures[C18:info-outputs-mirror-the-reported-results] err == nil && opts.Info != nil ==> reached(DotResult_1) && (forall i int :: 0 <= i && i < len(ret(DotResult_1, 0)) ==> opts.Info.Outputs[i] != nil
+//@        && opts.Info.Outputs[i].t == ret(DotResult_1, 0)[i].Node.Type && opts.Info.Outputs[i].name == ret(DotResult_1, 0)[i].Node.Name && opts.Info.Outputs[i].group == ret(DotResult_1, 0)[i].Node.Group)
+//@   loop range params #1: complete[C18:every-reported-parameter-becomes-an-input]
+//@   loop range results #1: complete[C18:every-reported-result-becomes-an-output]
 //@   loop range params #1: invariant[C06:info-filling-keeps-the-tree] treeInv()
 //@   loop range results #1: invariant[C06:info-filling-keeps-the-tree-2] treeInv()
+//@   loop range params #1: invariant[C18:inputs-so-far] info == opts.Info && params == ret(DotParam_1, 0) && results == ret(DotResult_1, 0) && len(info.Inputs) == len(params) && len(info.Outputs) == len(results) && fresh(info.Inputs) && fresh(info.Outputs)
+//@        && info.Inputs.arr != info.Outputs.arr && info.Inputs.arr <= $alloc && info.Outputs.arr <= $alloc
+//@        && (forall i int :: 0 <= i && i < $i ==> info.Inputs[i] != nil && info.Inputs[i] <= $alloc && fresh(info.Inputs[i]) && info.Inputs[i].t == params[i].Node.Type && info.Inputs[i].optional == params[i].Optional
+//@             && info.Inputs[i].name == params[i].Node.Name && info.Inputs[i].group == params[i].Node.Group)
+//@   loop range results #1: invariant[C18:outputs-so-far] info == opts.Info && params == ret(DotParam_1, 0) && results == ret(DotResult_1, 0) && len(info.Inputs) == len(params) && len(info.Outputs) == len(results) && fresh(info.Inputs) && fresh(info.Outputs)
+//@        && info.Inputs.arr != info.Outputs.arr && info.Inputs.arr <= $alloc && info.Outputs.arr <= $alloc
+//@        && (forall i int :: 0 <= i && i < len(params) ==> info.Inputs[i] != nil && info.Inputs[i] <= $alloc && fresh(info.Inputs[i]) && info.Inputs[i].t == params[i].Node.Type && info.Inputs[i].optional == params[i].Optional
+//@             && info.Inputs[i].name == params[i].Node.Name && info.Inputs[i].group == params[i].Node.Group)
+//@        && (forall i int :: 0 <= i && i < $i ==> info.Outputs[i] != nil && info.Outputs[i] <= $alloc && fresh(info.Outputs[i]) && info.Outputs[i].t == results[i].Node.Type
+//@             && info.Outputs[i].name == results[i].Node.Name && info.Outputs[i].group == results[i].Node.Group)
 //@   loop range keys #1: invariant[C06:old-providers-remembered] (forall k key :: $seen[k] ==> k in oldProviders && oldProviders[k] == old(tgt.providers[k]))
 //@        && (forall k key :: !$seen[k] ==> !(k in oldProviders) && tgt.providers[k] == old(tgt.providers[k]))
 //@   loop range keys #1: invariant[C06:other-registries-untouched] othersKept && fresh(oldProviders) && treeInv()
